@@ -392,6 +392,26 @@ def _run_partition(case):
         pn = np.asarray(pm.nodes, dtype=int) if _main(pm) else np.zeros(0, dtype=int)
         if pn.size and not np.array_equal(np.asarray(pm.coord)[pn], coordG[pn]):
             v.append(viol("coordinates_kept", f"{name} Nproc={nproc} part {r}: mesh.coord rows of the part's nodes differ from the global ones", elemType="mesh", **key))
+        # node tags (physical groups) on a part: every node of the tag that the part HOLDS (owned or ghost: the boundary elements a load or a
+        # condition selected by tag is integrated on reach across the cut) must still be returned by the tag
+        if pn.size:
+            held = np.unique(np.concatenate([d["gnodes"] for d in rec["groups"].values()] or [np.zeros(0, dtype=int)]))
+            gtags = sorted({tg for g in G.dict_groupElem.values() for tg in g._dict_nodes_tags})
+            for tg in gtags:
+                want = np.intersect1d(np.asarray(G.Nodes_Tags(tg), dtype=int), held)
+                try:
+                    got = np.asarray(pm.Nodes_Tags(tg), dtype=int)
+                except Exception as err:
+                    if want.size:
+                        v.append(viol("tag_nodes", f"{name} Nproc={nproc} part {r}: Nodes_Tags('{tg}') raised {type(err).__name__} although the part holds "
+                                                   f"{want.size} nodes of the tag", elemType="mesh", **key))
+                    continue
+                ntr += 1
+                miss = np.setdiff1d(want, got)
+                if miss.size:
+                    v.append(viol("tag_nodes", f"{name} Nproc={nproc} part {r}: Nodes_Tags('{tg}') misses nodes {miss.tolist()[:10]} that the part holds "
+                                               f"(owned or ghost) and the tag of the global mesh contains", elemType="mesh", **key))
+                    break
     if v:
         return {"violations": v[:6], "fingerprint": fp(name, nproc, "bookkeeping"), "nontrivial": False, "transitions": ntr}
 
